@@ -102,6 +102,10 @@ def reading_conventions(res, rng):
                   lambda rs: sky(rs[0], lon, lat, 'fk5') and abs(rs[0].radius.to_value('deg') - rad) < 1e-9, 'rad notation'))
     cases.append((f'#CRTF\nglobal coord=J2000\ncircle[[{x0}pix, {y0}pix], 3pix], coord=image',
                   lambda rs: type(rs[0]).__name__ == 'CirclePixelRegion' and abs(rs[0].center.x - x0) < 1e-9 and abs(rs[0].radius - 3) < 1e-9, 'pix notation / image frame'))
+    # the text of a text region is what stands between its quotes, verbatim (also a quote character of the other kind at either end)
+    for quoted, want in (("'scale 12\"'", 'scale 12"'), ('"beam 30\'"', "beam 30'"), ("'plain words'", 'plain words'), ('"\'quoted\' name"', "'quoted' name")):
+        cases.append((f'#CRTF\nglobal coord=J2000\ntext[[{lon}deg, {lat}deg], {quoted}]',
+                      (lambda w: (lambda rs: type(rs[0]).__name__ == 'TextSkyRegion' and rs[0].text == w))(want), f'text {quoted} is kept verbatim'))
     for whole in (True, False):
         dg, mn = rng.randint(0, 80), rng.randint(0, 59)
         sc = rng.randint(1, 59) if whole else round(rng.uniform(1, 59), 3)
